@@ -499,6 +499,56 @@ func (w *wireWorld) apply3(kind string, p *tokStream, op string) string {
 			return o
 		}
 		return "x" + hx(b) + " " + o
+	case "ann.rt":
+		// ToolAnnotations through json.Marshal under the default encoding or MCPGODEBUG=hintomitempty=1 (the package
+		// variable the SDK reads it into), then json.Unmarshal
+		compat := p.next()
+		ob := func(t string) (*bool, bool) {
+			switch t {
+			case "-":
+				return nil, true
+			case "t", "f":
+				b := t == "t"
+				return &b, true
+			}
+			return nil, false
+		}
+		dh, ok1 := ob(p.next())
+		ih, ok2 := ob(p.next())
+		oh, ok3 := ob(p.next())
+		rh, ok4 := ob(p.next())
+		title, ok5 := p.str()
+		if !(ok1 && ok2 && ok3 && ok4 && ok5) || ih == nil || rh == nil || (compat != "0" && compat != "1") {
+			return "bad-op"
+		}
+		saved := hintomitempty
+		defer func() { hintomitempty = saved }()
+		hintomitempty = ""
+		if compat == "1" {
+			hintomitempty = "1"
+		}
+		data, err := json.Marshal(ToolAnnotations{DestructiveHint: dh, IdempotentHint: *ih, OpenWorldHint: oh, ReadOnlyHint: *rh, Title: title})
+		if err != nil {
+			return "marshal-error"
+		}
+		v, err := parseJSON(data)
+		if err != nil {
+			return "unparsable"
+		}
+		var back ToolAnnotations
+		if err := json.Unmarshal(data, &back); err != nil {
+			return v.tok() + " | err"
+		}
+		sh := func(b *bool) string {
+			if b == nil {
+				return "-"
+			}
+			if *b {
+				return "t"
+			}
+			return "f"
+		}
+		return fmt.Sprintf("%s | %s %s %s %s s%s", v.tok(), sh(back.DestructiveHint), sh(&back.IdempotentHint), sh(back.OpenWorldHint), sh(&back.ReadOnlyHint), hxs(back.Title))
 	case "mrtr.retry":
 		return mrtrRetry(p)
 	case "ref.rt":
